@@ -132,6 +132,9 @@ func (a *Act) atCall(label string, res Val, instr ssa.Instruction, preCall *Stat
 
 func (a *Act) callStatic(instr ssa.Instruction, c *ssa.CallCommon, rt types.Type, args []Val, callee *ssa.Function, name, key string, k int) Val {
 	ct := a.vc.eng.contracts.Lookup(pkgName(callee), key)
+	if rc := a.root().contract; rc != nil && rc.InlineCalls[key] && inRepo(callee) && len(callee.Blocks) > 0 && !hasLoop(callee) && !isRecursive(callee) && a.depth < maxInlineDepth {
+		return a.inlineCall(instr, callee, args, nil)
+	}
 	if ct != nil && !ct.Inline {
 		ct.Used = true
 		return a.contractCall(instr, callee, ct, args, k, rt)
